@@ -82,7 +82,8 @@ def wide_result_truncated(c):
         return False
     same_sign = (i[0] >> (n - 1)) == (m[0] >> (n - 1))
     near = same_sign and abs(_mag(n, i[0]) - _mag(n, m[0])) <= 2
-    overflow = _mag(n, m[0]) >= ((1 << es) - 1) << fb
+    # an overflowing exact result: the model answers inf, or maxpos in a saturating configuration
+    overflow = _mag(n, m[0]) >= ((1 << es) - 1) << fb or (sat and _mag(n, m[0]) >= (((1 << es) - 1) << fb) - 1)
     subn = any((_mag(n, x) >> fb) == 0 for x in ints(c['args']) + m)
     return near or overflow or subn
 
